@@ -20,20 +20,24 @@ import common
 
 MANIFEST = dict(
     category="proof",
-    text="proof (partial). Machine-checked forward-simulation proof (Coq) for a faithful model of "
-         "bytecode_interpreter.rs (compile_expression: slot resolution local/global/ans/function value, jump offsets of "
-         "conditionals, call frames with parameters and where-locals, recursion, function values and callable calls, "
-         "foreign calls, lists, struct field access) and of the vm.rs stack machine against an independent big-step "
-         "reference semantics: for every expression, fuel, scope and call-frame context, if the reference evaluation "
-         "yields a value the machine running the model-compiled code pushes exactly that value "
-         "(C09_expr_correct_partial), an expression statement halts with it (C09_statement_correct_partial) and the "
-         "machine never panics on such runs (C09_no_stuck_partial). The statement is refuted for function values taken "
-         "before a redefinition (C09_funref_refuted; open finding). NOT proved: string literals with parts and struct "
-         "literals (field order), the statement-level bookkeeping from `compile p` to the invariant the theorems "
-         "assume, runtime-error outcomes: these rest on the correspondence only. The model is tied to the code on "
-         "every run: the model compiler's output is compared instruction by instruction with the real compiler's "
-         "(hook dump), and model machine / reference evaluator / implementation results are compared three ways on "
-         "generated well-typed programs (the reference evaluator is the oracle).",
+    text="proof (partial). Machine-checked compiler-correctness proof (Coq) for a faithful model of "
+         "bytecode_interpreter.rs (compile_expression / compile_define_variable / compile_statement: slot resolution "
+         "local/global/ans/function value, jump offsets of conditionals, call frames with parameters and where-locals, "
+         "recursion, function values and callable calls, foreign calls, struct literals sorted by definition index "
+         "and emitted in reverse, field access, lists, string parts and JoinString, procedures) and of the vm.rs stack "
+         "machine against an independent big-step reference semantics. C09_compile_correct: for EVERY program of the "
+         "modelled language and every fuel, if compilation stays within the u16 ranges and the reference evaluation "
+         "(static binding; no stale function value is called) yields print output and a final value, the machine "
+         "running the compiled code halts with exactly that output and value. C09_compile_correct_static: the same for the plain static semantics when no function name is defined twice. "
+         "Named clauses: C09_field_order, "
+         "C09_list_order, C09_string_order, C09_arg_order, C09_innermost_binding; C09_no_stuck_partial (no panic / "
+         "error on such runs). The unrestricted statement is refuted for function values taken before a redefinition "
+         "(C09_funref_refuted; open finding). C09_errors_partial: runtime errors of the reference are errors of the same kind on the machine (struct "
+         "literals excluded, format specifiers assumed total). NOT proved: absence of panics "
+         "for all well-typed programs, u16 wrap-around. The model is tied to the code on every run: the model "
+         "compiler's output is compared instruction by instruction with the real compiler's (hook dump), and model "
+         "machine / reference evaluator / implementation results are compared three ways on generated well-typed "
+         "programs (the reference evaluator is the oracle).",
     design_ref="DESIGN.md §6 C09, design/vm.md",
     note="Trusted: Coq kernel + vm_compute; the hand ports Compile.v/Machine.v (validated every run by the opcode-level "
          "and result-level correspondence, not proved against Rust); quantity arithmetic, formatting and foreign "
@@ -42,8 +46,14 @@ MANIFEST = dict(
     technique="Coq forward-simulation proof (fuel induction, frame-generic invariant) + three-way model/implementation correspondence by vm_compute",
 )
 
-THEOREMS = ["C09_expr_correct_partial", "C09_statement_correct_partial", "C09_no_stuck_partial", "C09_funref_refuted"]
+THEOREMS = ["C09_compile_correct", "C09_compile_correct_static", "C09_no_stuck_partial", "C09_no_stuck_on_error_partial", "C09_errors_partial", "C09_expr_simulation", "C09_list_order", "C09_arg_order",
+            "C09_string_order", "C09_field_order", "C09_innermost_binding", "C09_funref_refuted"]
 ALLOWED_AXIOMS = []
+FRAGMENT_OPCODES = ["LoadConstant", "GetLocal", "GetUpvalue", "GetLastResult", "Negate", "LogicalNeg", "Factorial",
+                    "Add", "Subtract", "Multiply", "Divide", "Power", "LessThan", "GreaterThan", "LessOrEqual",
+                    "GreatorOrEqual", "Equal", "NotEqual", "LogicalAnd", "LogicalOr", "JumpIfFalse", "Jump", "Call",
+                    "FFICallFunction", "FFICallProcedure", "CallCallable", "JoinString", "BuildStructInstance",
+                    "AccessStructField", "BuildList", "Return"]   # ConvertTo: units are not modelled
 FUEL_REF = 600
 FUEL_MACH = 20000
 
@@ -101,7 +111,25 @@ class Gen:
         "cons": ("fn cons<A>(x: A, xs: List<A>) -> List<A>", None),
         "cons_end": ("fn cons_end<A>(x: A, xs: List<A>) -> List<A>", None),
         "str_length": ("fn str_length(s: String) -> Scalar", None),
+        "str_slice": ("fn str_slice(start: Scalar, end: Scalar, s: String) -> String", None),
+        "uppercase": ("fn uppercase(s: String) -> String", None),
+        "lowercase": ("fn lowercase(s: String) -> String", None),
     }
+
+    # list functions of the prelude (modules/core/lists.nbt), defined by the program itself
+    LISTLIB = [
+        ("is_empty", "fn is_empty<A>(xs: List<A>) -> Bool = xs == []",
+         'SFn "is_empty" ["xs"] [] (EBin BEq (EIdent "xs") (EList []))'),
+        ("concat", "fn concat<A>(xs1: List<A>, xs2: List<A>) -> List<A> = if is_empty(xs1) then xs2 else cons(head(xs1), concat(tail(xs1), xs2))",
+         'SFn "concat" ["xs1"; "xs2"] [] (ECond (ECall "is_empty" [EIdent "xs1"]) (EIdent "xs2") '
+         '(ECall "cons" [ECall "head" [EIdent "xs1"]; ECall "concat" [ECall "tail" [EIdent "xs1"]; EIdent "xs2"]]))'),
+        ("reverse", "fn reverse<A>(xs: List<A>) -> List<A> = if is_empty(xs) then [] else cons_end(head(xs), reverse(tail(xs)))",
+         'SFn "reverse" ["xs"] [] (ECond (ECall "is_empty" [EIdent "xs"]) (EList []) '
+         '(ECall "cons_end" [ECall "head" [EIdent "xs"]; ECall "reverse" [ECall "tail" [EIdent "xs"]]]))'),
+        ("map", "fn map<A, B>(f: Fn[(A) -> B], xs: List<A>) -> List<B> = if is_empty(xs) then [] else cons(f(head(xs)), map(f, tail(xs)))",
+         'SFn "map" ["f"; "xs"] [] (ECond (ECall "is_empty" [EIdent "xs"]) (EList []) '
+         '(ECall "cons" [ECallable (EIdent "f") [ECall "head" [EIdent "xs"]]; ECall "map" [EIdent "f"; ECall "tail" [EIdent "xs"]]]))'),
+    ]
 
     def __init__(self, rng, profile):
         self.rng = rng
@@ -113,6 +141,9 @@ class Gen:
         self.structs = {}     # name -> [(field, type)]
         self.foreign = set()
         self.features = collections.Counter()
+        self.glob_lo = {}      # global list variable -> guaranteed minimum length
+        self.in_function = False
+        self.ans_type = None   # type of the last expression statement (`ans`)
         self.cost = 0          # estimated evaluation steps of the code generated since the last reset
         self.fn_cost = {}      # name -> estimated steps of one call
 
@@ -155,13 +186,11 @@ class Gen:
                 res = self.field(t, d, scope, nostr)
                 if res:
                     return res
-            if c < 0.34 and "head" in self.foreign and not (nostr and self.has_str(t)):
-                # head of a non-empty literal / cons
-                e, ec = self.expr(t, d - 1, scope, nostr)
-                l, lc = self.expr(tlist(t), d - 1, scope, nostr)
-                if "cons" in self.foreign:
-                    self.features["head"] += 1
-                    return "head(cons(%s, %s))" % (e, l), 'ECall "head" [ECall "cons" [%s; %s]]' % (ec, lc)
+            if c < 0.34 and "head" in self.foreign and not (nostr and self.has_str(t)) and t[0] in "SBTR":
+                # head of a list that is guaranteed to be non-empty
+                l, lc, _ = self.list_expr(t, d - 1, scope, nostr, minlo=1)
+                self.features["head"] += 1
+                return "head(%s)" % l, 'ECall "head" [%s]' % lc
         if k == "S":
             if leaf:
                 n = r.randrange(0, 10)
@@ -173,17 +202,30 @@ class Gen:
                 b, bc = self.expr(S, d - 1, scope, nostr)
                 self.features["arith"] += 1
                 return "(%s %s %s)" % (a, op, b), "EBin %s (%s) (%s)" % (cop, ac, bc)
-            if c < 0.65:
+            if c < 0.60:
                 a, ac = self.expr(S, d - 1, scope, nostr)
                 self.features["neg"] += 1
                 return "(-%s)" % a, "EUn UNeg (%s)" % ac
+            if c < 0.63:
+                a, ac = self.expr(S, d - 1, scope, nostr)
+                k = r.randrange(1, 10)
+                self.features["div"] += 1
+                return ("((%s * %d) / %d)" % (a, k, k),
+                        "EBin BDiv (EBin BMul (%s) (EScalar %d%%Z)) (EScalar %d%%Z)" % (ac, k, k))
+            if c < 0.65:
+                a, ac = self.expr(S, 0, scope, nostr)
+                self.features["pow"] += 1
+                return "(%s^2)" % a, "EBin BPow (%s) (EScalar 2%%Z)" % ac
             if c < 0.70:
                 n = r.randrange(0, 5)
                 self.features["fact"] += 1
+                if r.random() < 0.3:
+                    n = r.randrange(0, 8)
+                    return "(%d!!)" % n, "EUn (UFact 2) (EScalar %d%%Z)" % n
                 return "(%d!)" % n, "EUn (UFact 1) (EScalar %d%%Z)" % n
             if c < 0.80 and "len" in self.foreign:
                 et = r.choice([S, B])
-                l, lc = self.expr(tlist(et), d - 1, scope, nostr)
+                l, lc, _ = self.list_expr(et, d - 1, scope, nostr)
                 self.features["len"] += 1
                 return "len(%s)" % l, 'ECall "len" [%s]' % lc
             if c < 0.86 and "str_length" in self.foreign and not nostr:
@@ -211,7 +253,21 @@ class Gen:
             if c < 0.82:
                 a, ac = self.expr(B, d - 1, scope, nostr)
                 return "(!%s)" % a, "EUn UNot (%s)" % ac
-            if c < 0.92 and not nostr:
+            if c < 0.87:
+                op, cop = r.choice([("==", "BEq"), ("!=", "BNe")])
+                et = r.choice([S, S, B])
+                a, ac, _ = self.list_expr(et, d - 1, scope, nostr)
+                b, bc, _ = self.list_expr(et, d - 1, scope, nostr)
+                self.features["listeq"] += 1
+                return "(%s %s %s)" % (a, op, b), "EBin %s (%s) (%s)" % (cop, ac, bc)
+            if c < 0.90 and not nostr and self.structs:
+                op, cop = r.choice([("==", "BEq"), ("!=", "BNe")])
+                st = tstruct(r.choice(sorted(self.structs)))
+                a, ac = self.expr(st, d - 1, scope)
+                b, bc = self.expr(st, d - 1, scope)
+                self.features["structeq"] += 1
+                return "(%s %s %s)" % (a, op, b), "EBin %s (%s) (%s)" % (cop, ac, bc)
+            if c < 0.93 and not nostr:
                 op, cop = r.choice([("==", "BEq"), ("!=", "BNe")])
                 a, ac = self.expr(T, d - 1, scope)
                 b, bc = self.expr(T, d - 1, scope)
@@ -222,6 +278,17 @@ class Gen:
         if k == "T":
             if nostr:
                 raise RuntimeError("string inside interpolation")
+            if not leaf and r.random() < 0.12:
+                fs = [f for f in ("uppercase", "lowercase", "str_slice") if f in self.foreign]
+                if fs:
+                    f = r.choice(fs)
+                    a, ac = self.expr(T, d - 1, scope)
+                    self.features["strfn"] += 1
+                    if f == "str_slice":
+                        i0, i1 = r.randrange(0, 4), r.randrange(0, 6)
+                        return ("str_slice(%d, %d, %s)" % (i0, i1, a),
+                                'ECall "str_slice" [EScalar %d%%Z; EScalar %d%%Z; %s]' % (i0, i1, ac))
+                    return "%s(%s)" % (f, a), "ECall %s [%s]" % (cstr(f), ac)
             nparts = 1 if leaf else r.randrange(1, 5)
             src, parts = "", []
             last_fixed = False
@@ -253,21 +320,8 @@ class Gen:
                 parts = ['inl ""']       # the parser yields one empty Fixed part for ""
             return '"%s"' % src, "EString %s" % clist(parts)
         if k == "L":
-            n = r.randrange(1, 4) if not leaf else r.randrange(1, 3)
-            c = r.random()
-            if not leaf and c < 0.2 and "cons" in self.foreign:
-                e, ec = self.expr(t[1], d - 1, scope, nostr)
-                l, lc = self.expr(t, d - 1, scope, nostr)
-                f = r.choice(["cons", "cons_end"]) if "cons_end" in self.foreign else "cons"
-                self.features["cons"] += 1
-                return "%s(%s, %s)" % (f, e, l), 'ECall %s [%s; %s]' % (cstr(f), ec, lc)
-            if not leaf and c < 0.3 and "tail" in self.foreign and "cons" in self.foreign:
-                e, ec = self.expr(t[1], d - 1, scope, nostr)
-                l, lc = self.expr(t, d - 1, scope, nostr)
-                return "tail(cons(%s, %s))" % (e, l), 'ECall "tail" [ECall "cons" [%s; %s]]' % (ec, lc)
-            es = [self.expr(t[1], d - 1, scope, nostr) for _ in range(n)]
-            self.features["list"] += 1
-            return "[%s]" % ", ".join(e for e, _ in es), "EList %s" % clist(c for _, c in es)
+            l, lc, _ = self.list_expr(t[1], d, scope, nostr)
+            return l, lc
         if k == "R":
             if nostr:
                 raise LookupError("no struct literal inside an interpolation")
@@ -289,6 +343,79 @@ class Gen:
                 return f, "EIdent %s" % cstr(f)
             raise LookupError("no function of type")
         raise RuntimeError(t)
+
+    def var_lo(self, name, scope):
+        if self.in_function or name not in self.globals or scope.get(name) != self.globals.get(name):
+            return 0
+        return self.glob_lo.get(name, 0)
+
+    def list_expr(self, et, d, scope, nostr=False, minlo=0, allow_empty=False):
+        """a list expression over element type et with at least minlo elements.
+        returns (src, coq, lo) with lo a guaranteed lower bound of its length"""
+        r = self.rng
+        t = tlist(et)
+        self.cost += 1
+        F = self.foreign
+        vs = [n for n in self.scope_vars(scope, t) if self.var_lo(n, scope) >= minlo]
+        leaf = d <= 0 or r.random() < 0.15
+        ch = ["lit", "lit"]
+        if vs:
+            ch += ["var"] * 3
+        if not leaf:
+            if "cons" in F:
+                ch += ["cons"] * 3
+            if "cons_end" in F:
+                ch += ["cons_end"] * 2
+            if "tail" in F:
+                ch += ["tail"] * 3
+            if "tail" in F and "cons" in F:
+                ch += ["chain"] * 3
+            ch += ["cond"]
+            if minlo == 0:
+                ch += ["call"] * 2
+        k = r.choice(ch)
+        if k == "var":
+            x = r.choice(vs)
+            self.features["var"] += 1
+            return x, "EIdent %s" % cstr(x), self.var_lo(x, scope)
+        if k in ("cons", "cons_end"):
+            e, ec = self.expr(et, d - 1, scope, nostr)
+            l, lc, lo = self.list_expr(et, d - 1, scope, nostr, max(0, minlo - 1), allow_empty=True)
+            self.features[k] += 1
+            return "%s(%s, %s)" % (k, e, l), "ECall %s [%s; %s]" % (cstr(k), ec, lc), lo + 1
+        if k == "tail":
+            l, lc, lo = self.list_expr(et, d - 1, scope, nostr, minlo + 1)
+            self.features["tail"] += 1
+            return "tail(%s)" % l, 'ECall "tail" [%s]' % lc, lo - 1
+        if k == "chain":
+            # tail^k of an UNSHARED temporary (literal), then cons / cons_end j times
+            n = r.randrange(1, 6)
+            kt = r.randrange(1, n + 1)
+            j = max(r.randrange(0, kt + 3), minlo - (n - kt))
+            es = [self.expr(et, 0, scope, nostr) for _ in range(n)]
+            src, coq = "[%s]" % ", ".join(e for e, _ in es), "EList %s" % clist(c for _, c in es)
+            for _ in range(kt):
+                src, coq = "tail(%s)" % src, 'ECall "tail" [%s]' % coq
+            for _ in range(j):
+                f = r.choice(["cons", "cons", "cons_end"]) if "cons_end" in F else "cons"
+                e, ec = self.expr(et, 0, scope, nostr)
+                src, coq = "%s(%s, %s)" % (f, e, src), "ECall %s [%s; %s]" % (cstr(f), ec, coq)
+            self.features["tail_cons_chain"] += 1
+            return src, coq, n - kt + j
+        if k == "cond":
+            cs, cc = self.expr(B, d - 1, scope, nostr)
+            a, ac, la = self.list_expr(et, d - 1, scope, nostr, minlo)
+            b, bc, lb = self.list_expr(et, d - 1, scope, nostr, minlo)
+            self.features["cond"] += 1
+            return "(if %s then %s else %s)" % (cs, a, b), "ECond (%s) (%s) (%s)" % (cc, ac, bc), min(la, lb)
+        if k == "call":
+            res = self.call(t, d, scope, nostr)
+            if res:
+                return res[0], res[1], 0
+        n = max(minlo, r.randrange(0 if allow_empty else 1, 4))
+        es = [self.expr(et, d - 1, scope, nostr) for _ in range(n)]
+        self.features["list"] += 1
+        return "[%s]" % ", ".join(e for e, _ in es), "EList %s" % clist(c for _, c in es), n
 
     def has_str(self, t):
         if t[0] == "T":
@@ -395,7 +522,10 @@ class Gen:
         name = free[0]
         nf = r.randrange(1, 4)
         fs = r.sample(self.FIELDS, nf)
-        fields = [(f, r.choice([S, S, B, T, tlist(S)])) for f in fs]
+        nested = [tstruct(n) for n in sorted(self.structs)]
+        fields = [(f, r.choice([S, S, B, T, tlist(S)] + nested)) for f in fs]
+        if any(ft[0] == "R" for _, ft in fields):
+            self.features["nested_struct"] += 1
         self.structs[name] = fields
         self.src.append("struct %s { %s }" % (name, ", ".join("%s: %s" % (f, type_src(t)) for f, t in fields)))
         self.coq.append("SStruct %s %s" % (cstr(name), clist(cstr(f) for f, _ in fields)))
@@ -408,6 +538,12 @@ class Gen:
         self.src.append(self.FOREIGN[name][0])
         self.coq.append("SForeign %s" % cstr(name))
 
+    def top_scope(self):
+        sc = dict(self.globals)
+        if self.ans_type is not None:
+            sc["ans"] = self.ans_type      # GetLastResult; only used at top level
+        return sc
+
     def stmt_let(self):
         r = self.rng
         t = self.simple_type()
@@ -415,12 +551,17 @@ class Gen:
         if x in self.globals:
             self.features["shadow_global"] += 1
         self.cost = 0
+        lo = 0
         try:
-            e, ec = self.expr(t, r.randrange(1, 4), dict(self.globals))
+            if t[0] == "L":
+                e, ec, lo = self.list_expr(t[1], r.randrange(1, 4), self.top_scope())
+            else:
+                e, ec = self.expr(t, r.randrange(1, 4), self.top_scope())
         except LookupError:
             return False
         if self.cost > self.STMT_LIMIT:
             return False
+        self.glob_lo[x] = lo
         self.src.append("let %s = %s" % (x, e))
         self.coq.append("SLet %s (%s)" % (cstr(x), ec))
         self.globals[x] = t
@@ -430,14 +571,19 @@ class Gen:
         r = self.rng
         t = self.simple_type(allow_fn=False)
         self.cost = 0
+        if self.ans_type is not None and r.random() < 0.25:
+            t = self.ans_type
         try:
-            e, ec = self.expr(t, r.randrange(1, 5), dict(self.globals))
+            e, ec = self.expr(t, r.randrange(1, 5), self.top_scope())
         except LookupError:
             return False
         if self.cost > self.STMT_LIMIT:
             return False
+        if '"ans"' in ec:
+            self.features["ans"] += 1
         self.src.append(e)
         self.coq.append("SExpr (%s)" % ec)
+        self.ans_type = t
         return True
 
     def stmt_print(self):
@@ -499,6 +645,7 @@ class Gen:
         old_cost = self.fn_cost.pop(name, None)
         self.cost = 0
         nrec = 0
+        self.in_function = True
         # where-locals
         wl = []
         if r.random() < 0.45:
@@ -551,11 +698,13 @@ class Gen:
             else:
                 body, bodyc = self.expr(ret, r.randrange(1, 4), dict(scope))
         except LookupError:
+            self.in_function = False
             if old is not None:
                 self.fns[name] = old
                 if old_cost is not None:
                     self.fn_cost[name] = old_cost
             return False
+        self.in_function = False
         # one call: the body once per activation; literal depths are at most 4
         acts = 1 if not recursive else (31 if nrec == 2 else 5)
         if selfref:
@@ -587,6 +736,19 @@ class Gen:
             if r.random() < 0.7:
                 self.stmt_foreign(f)
         n = r.randrange(3, 11)
+        if self.profile == "listlib":
+            for f in ("head", "tail", "cons", "cons_end", "len"):
+                self.stmt_foreign(f)
+            LS = tlist(S)
+            for name, src, coq in self.LISTLIB:
+                self.src.append(src)
+                self.coq.append(coq)
+            self.fns["is_empty"] = ([LS], B, False)
+            self.fns["concat"] = ([LS, LS], LS, False)
+            self.fns["reverse"] = ([LS], LS, False)
+            self.fns["map"] = ([tfn([S], S), LS], LS, False)
+            self.fn_cost.update({"is_empty": 5, "concat": 200, "reverse": 200, "map": 250})
+            self.features["listlib"] += 1
         if self.profile == "fnheavy":
             # an `apply`-style function early so that function values get used
             self.src.append("fn w(g: Fn[(Scalar) -> Scalar], x: Scalar) -> Scalar = g(x)")
@@ -626,8 +788,80 @@ def funref_pattern(rng):
     return src, coq
 
 
-def coq_case(coq_stmts):
-    return "show_case %d (N.to_nat %d) %s" % (FUEL_REF, FUEL_MACH, clist(coq_stmts))
+def error_cases(rng):
+    """programs that end in a runtime error: the error kind must agree three ways"""
+    k = rng.randrange(1, 9)
+    D = "dimension Scalar = 1"
+    z = "EScalar 0%Z"
+    def sc(n):
+        return "EScalar %d%%Z" % n
+    div0 = "EBin BDiv (%s) (%s)" % (sc(k), z)
+    cases = [
+        ([D, "(%d / 0)" % k], ["SExpr (%s)" % div0]),
+        ([D, "fn g(x: Scalar) -> Scalar = (x / 0)", "(g(%d) + 1)" % k],
+         ['SFn "g" ["x"] [] (EBin BDiv (EIdent "x") (%s))' % z,
+          'SExpr (EBin BAdd (ECall "g" [%s]) (EScalar 1%%Z))' % sc(k)]),
+        ([D, "assert((%d > %d))" % (k, k + 1)], ['SProc "assert" [EBin BGt (%s) (%s)]' % (sc(k), sc(k + 1))]),
+        ([D, "assert_eq(%d, %d)" % (k, k + 1)], ['SProc "assert_eq" [%s; %s]' % (sc(k), sc(k + 1))]),
+        ([D, Gen.FOREIGN["head"][0], Gen.FOREIGN["tail"][0], "head(tail([%d]))" % k],
+         ['SForeign "head"', 'SForeign "tail"', 'SExpr (ECall "head" [ECall "tail" [EList [%s]]])' % sc(k)]),
+        ([D, "let a = %d" % k, "print(a)", "(a / 0)"],
+         ['SLet "a" (%s)' % sc(k), 'SProc "print" [EIdent "a"]', 'SExpr (EBin BDiv (EIdent "a") (%s))' % z]),
+        ([D, "fn g(x: Scalar) -> Scalar = y where y = (x / 0)", "g(%d)" % k],
+         ['SFn "g" ["x"] [("y", EBin BDiv (EIdent "x") (%s))] (EIdent "y")' % z, 'SExpr (ECall "g" [%s])' % sc(k)]),
+        ([D, "(if (%d < 1) then 1 else (1 / 0))" % k],
+         ['SExpr (ECond (EBin BLt (%s) (EScalar 1%%Z)) (EScalar 1%%Z) (EBin BDiv (EScalar 1%%Z) (%s)))' % (sc(k), z)]),
+        ([D, '"a{(%d / 0)}b"' % k], ['SExpr (EString [inl "a"; inr (%s, None); inl "b"])' % div0]),
+        ([D, "[1, (%d / 0), 3]" % k], ['SExpr (EList [EScalar 1%%Z; %s; EScalar 3%%Z])' % div0]),
+        ([D, "fn w(g: Fn[(Scalar) -> Scalar], x: Scalar) -> Scalar = g(x)", "fn h(x: Scalar) -> Scalar = (x / 0)", "w(h, %d)" % k],
+         ['SFn "w" ["g"; "x"] [] (ECallable (EIdent "g") [EIdent "x"])',
+          'SFn "h" ["x"] [] (EBin BDiv (EIdent "x") (%s))' % z, 'SExpr (ECall "w" [EIdent "h"; %s])' % sc(k)]),
+    ]
+    return cases
+
+
+def oversize_cases():
+    """conditionals with a branch larger than 65535 bytes (3 bytes per list element):
+    run on the implementation only, expected value known by construction"""
+    out = []
+    for n in (21000, 22000):
+        lst = "[" + ",".join(["1"] * n) + "]"
+        pre = ["dimension Scalar = 1", Gen.FOREIGN["len"][0]]
+        out.append((pre + ["if true then len(%s) else 7" % lst], "V:%d" % n, n))
+        out.append((pre + ["if false then len(%s) else 7" % lst], "V:7", n))
+    return out
+
+
+FUEL_MACH_HANG = 1500      # the implementation did not terminate: only "out of fuel" matters
+
+
+def coq_case(coq_stmts, mfuel=None):
+    return "show_case %d (N.to_nat %d) %s" % (FUEL_REF, mfuel or FUEL_MACH, clist(coq_stmts))
+
+
+def safe_mismatches(imports, items, tag, base=0, timeout=420):
+    """common.coq_mismatches, but a shard that does not finish is bisected; a single case
+    that does not finish is reported as @@MODEL-TIMEOUT instead of aborting the check"""
+    try:
+        return common.coq_mismatches(imports, items, tag, shard_size=max(20, min(120, len(items) // common.NPROC + 1)),
+                                     timeout=timeout, prelude="Open Scope string_scope.")
+    except (common.Broken, subprocess.TimeoutExpired) as e:
+        for f in os.listdir(common.WORK):
+            if f.startswith("Cases_%s_" % tag):
+                try:
+                    os.remove(os.path.join(common.WORK, f))
+                except OSError:
+                    pass
+        if len(items) == 1:
+            return {0: "@@MODEL-TIMEOUT"}
+        if "timed out" not in str(e) and not isinstance(e, subprocess.TimeoutExpired):
+            raise
+        h = len(items) // 2
+        a = safe_mismatches(imports, items[:h], tag + "a", timeout=max(60, timeout // 2))
+        b = safe_mismatches(imports, items[h:], tag + "b", timeout=max(60, timeout // 2))
+        out = dict(a)
+        out.update({k + h: v for k, v in b.items()})
+        return out
 
 
 # -------------------------------------------------------------- harness I/O
@@ -692,6 +926,8 @@ BIG = re.compile(r"\d{15,}")
 def classify(impl_line, model_str):
     """-> (kind, detail).  kinds: ok, overflow, model-compile, model-machine, known-funref, impl-vs-ref"""
     io, idump = impl_obs(impl_line)
+    if model_str == "@@MODEL-TIMEOUT":
+        return "model-timeout", "the model evaluation of this case did not finish"
     parts = model_str.split(" || ")
     if len(parts) != 4:
         return "model-machine", "unparsable model output"
@@ -739,10 +975,10 @@ def evaluate(binary, cases, tag):
     items = []
     for n, (s, c) in enumerate(cases):
         io, idump = impl_obs(impl[n])
-        items.append((coq_case(c), "%s || %s || %s || %s" % (io, io, io, idump)))
-    bad = common.coq_mismatches(["VM.Value", "VM.Ast", "VM.Bytecode", "VM.Compile", "VM.Machine", "VM.RefSem", "VM.Exec"],
-                                items, tag, shard_size=max(20, min(120, len(items) // common.NPROC + 1)), timeout=600,
-                                prelude="Open Scope string_scope.")
+        hang = io.startswith("R:@@")
+        items.append((coq_case(c, FUEL_MACH_HANG if hang else None), "%s || %s || %s || %s" % (io, io, io, idump)))
+    bad = safe_mismatches(["VM.Value", "VM.Ast", "VM.Bytecode", "VM.Compile", "VM.Machine", "VM.RefSem", "VM.Exec"],
+                          items, tag)
     out = []
     for n in range(len(cases)):
         if n in bad:
@@ -753,21 +989,33 @@ def evaluate(binary, cases, tag):
     return out
 
 
-def shrink(binary, src, coq, want_kind):
-    """delete statements (source line i+1 <-> coq stmt i) while the same kind of failure remains"""
+def shrink(binary, src, coq, want_kind, budget_s=75):
+    """delete statements (source line i+1 <-> coq stmt i) while the same kind of failure remains.
+    All deletion candidates of a round are evaluated in ONE batch (one coqc run); bounded by wall time."""
+    import time
+    t0 = time.time()
     pairs = list(zip(src[1:], coq))
-
-    def fails(cand):
-        s = [src[0]] + [a for a, _ in cand]
-        c = [b for _, b in cand]
+    n = 2
+    while len(pairs) >= 2 and time.time() - t0 < budget_s:
+        chunk = max(1, len(pairs) // n)
+        cands = []
+        for i in range(0, len(pairs), chunk):
+            c = pairs[:i] + pairs[i + chunk:]
+            if c:
+                cands.append(c)
         try:
-            r = evaluate(binary, [(s, c)], "c09shrink")[0]
+            res = evaluate(binary, [([src[0]] + [a for a, _ in c], [b for _, b in c]) for c in cands], "c09shrink")
         except common.Broken:
-            return False
-        return r[2] == want_kind
-
-    small = common.shrink_list(pairs, fails, max_rounds=12)
-    return [src[0]] + [a for a, _ in small], [b for _, b in small]
+            break
+        hit = [c for c, r in zip(cands, res) if r[2] == want_kind]
+        if hit:
+            pairs = min(hit, key=len)
+            n = max(n - 1, 2)
+        elif chunk == 1:
+            break
+        else:
+            n = min(len(pairs), n * 2)
+    return [src[0]] + [a for a, _ in pairs], [b for _, b in pairs]
 
 
 def load_corpus():
@@ -801,7 +1049,7 @@ def run(chk):
     for c in load_corpus():
         cases.append((c["src"], c["coq"]))
         kinds.append("corpus")
-    nrand = 1500 if quick else 40000
+    nrand = 1000 if quick else 10000
     feats = collections.Counter()
     gen_fail = 0
     for n in range(nrand):
@@ -809,7 +1057,7 @@ def run(chk):
             cases.append(funref_pattern(chk.rng))
             kinds.append("funref-pattern")
             continue
-        g = Gen(chk.rng, "fnheavy" if n % 3 == 0 else "plain")
+        g = Gen(chk.rng, "fnheavy" if n % 3 == 0 else ("listlib" if n % 3 == 1 else "plain"))
         try:
             s, c = g.program()
         except (LookupError, RuntimeError, IndexError):
@@ -819,6 +1067,9 @@ def run(chk):
         cases.append((s, c))
         kinds.append("generated")
 
+    for c in error_cases(chk.rng) + error_cases(chk.rng):
+        cases.append(c)
+        kinds.append("error-stream")
     results = []
     B = 4000
     for i in range(0, len(cases), B):
@@ -847,7 +1098,9 @@ def run(chk):
     found = 0
     reported_known = set()
     model_broken = []
-    for n, ((impl_line, model, kind, detail), (s, c)) in enumerate(zip(results, cases)):
+    order = sorted(range(len(cases)), key=lambda i: (len(cases[i][1]), sum(len(x) for x in cases[i][1])))
+    for n in order:
+        (impl_line, model, kind, detail), (s, c) = results[n], cases[n]
         if kind == "known-funref":
             k = known_match(s, kind)
             if k:
@@ -873,6 +1126,34 @@ def run(chk):
             model_broken.append(n)
         elif kind == "generator":
             pass
+    # u16 wrap of jump offsets: implementation only
+    over = oversize_cases()
+    over_impl = run_vm_harness(binary, [" ;; ".join(src) for src, _, _ in over], chunk_timeout=120)
+    over_bad = 0
+    for (src, expected, n), line in zip(over, over_impl):
+        got = split_impl(line)[0]
+        if got == expected:
+            continue
+        over_bad += 1
+        fk = None
+        if 3 * n + 3 > 65535:      # the then-branch does not fit a u16 jump operand
+            for k in common.load_known():
+                if k.get("property") == "C09" and k.get("status") == "open" and \
+                        k.get("matcher", {}).get("class") == "conditional-branch-over-65535-bytes":
+                    fk = k
+        desc = "%s with a %d-element list literal: implementation %s, expected %s" % (
+            src[-1][:14] + "…", n, got, expected)
+        if fk:
+            if fk["id"] not in reported_known:
+                reported_known.add(fk["id"])
+                chk.known(fk["id"], "%s: %s" % (fk["id"], desc))
+            else:
+                chk.known_hits.append(fk["id"])
+        elif found < 3:
+            chk.violation({"kind": "conditional gives a wrong result", "detail": desc,
+                           "program_shape": src[-1][:40] + "...", "list_elements": n,
+                           "implementation": got, "expected": expected})
+            found += 1
     if not found and (model_broken or not proved):
         n = model_broken[0] if model_broken else None
         first = None
@@ -890,6 +1171,8 @@ def run(chk):
         }, found_input=False)
 
     gen_rejected = tally.get("generator", 0)
+    if tally.get("model-timeout"):
+        chk.notes.append("%d case(s) skipped: model evaluation did not finish in time" % tally["model-timeout"])
     chk.cov.update({
         "evaluations": len(cases),
         "distinct_nontrivial": nontrivial,
@@ -906,6 +1189,8 @@ def run(chk):
         "feature_histogram": dict(feats),
         "opcode_coverage_cases": dict(ops_hist),
         "model_mismatches": len(model_broken),
+        "oversize_branch_cases": len(over), "oversize_branch_deviations": over_bad,
+        "opcodes_of_the_fragment_never_generated": sorted(set(FRAGMENT_OPCODES) - set(ops_hist)),
         "exhaustive": False,
         "samples": [{"program": cases[i][0], "implementation": results[i][0][:300]}
                     for i in (0, len(cases) // 2, len(cases) - 1)],
